@@ -1,57 +1,69 @@
 (* c05 driver.  stdin: one operation of a history per line; the linter state persists between lines.
      N                       -> a freshly built linter (empty caches);                          prints "ok"
-     C <cfgid> <hashid>      -> self.config = cfg (hashid = identity of the bytes fed to the hasher); "ok"
+     C <cfgid> <hashid>      -> self.config = cfg (hashid = identity of the calls made on the hasher); "ok"
      L|src cps|struct lints before SpellCheck|on:word;word;...|struct lints after SpellCheck|chunk;chunk;...
         struct lints / lints : "s e payload" triples
         on     : 1/0 = SpellCheck enabled;  word : "s e payload" = span of a word SpellCheck rejects and the identity
                  of the lint an uncached SpellCheck builds for it (the model's `suggest`; "?" = never observed)
-        chunk  : "-" (no span)  or  "hs he tokid keyid:rel lints or ?:keyids evicted before this lookup"
+        chunk  : "-" (a token slice without tokens)  or
+                 "keyid thid:rel lints or ?:keyids evicted before this lookup:s e kind s e kind ..."
+                 (the chunk's tokens: absolute span and kind identity; thid = identity of the calls the token
+                 hash makes on the hasher).  Hull, chunk characters and relative token spans are computed by the
+                 MODEL (drv_doc_of / rel_toks), as LintGroup::lint computes them.
                              -> LintGroup::lint; prints "s e payload ...|HM..|hm.." (emitted lints, hit/miss per chunk
                                 and per word)
      E keyid ...             -> the LRU dropped these entries;                                   "ok"
    `pattern_rel` (the uncached per-chunk result) is the table the L lines carry: the implementation's own
-   observations.  argv[1] = "fixed" (or C05_KEY=fixed in the environment, which the harness honours too) runs the model with
-   the key of fixes/F11.diff instead of the code's key — used to validate that patch on a scratch tree. *)
-let fixed = (Array.length Sys.argv > 1 && Sys.argv.(1) = "fixed") || Sys.getenv_opt "C05_KEY" = Some "fixed"
-let table : (int list * int * int, clint list) Hashtbl.t = Hashtbl.create 4096
+   observations; `tok_hash` maps a relative token sequence to the identity of its hasher input (thid). *)
+let table : (string, clint list) Hashtbl.t = Hashtbl.create 4096       (* chars|rel toks|cfg -> uncached result *)
+let thash : (string, int) Hashtbl.t = Hashtbl.create 4096              (* rel toks -> thid *)
 let hash_of_cfg : (int, int) Hashtbl.t = Hashtbl.create 64
-let keys : (int, n list * n * n) Hashtbl.t = Hashtbl.create 4096      (* keyid -> (chars, cfg hash, tokid) *)
-let spell_tbl : (int list, int) Hashtbl.t = Hashtbl.create 256      (* word -> payload; per linter (dictionary, dialect) *)
+let keys : (int, (n list * n) * n) Hashtbl.t = Hashtbl.create 4096     (* keyid -> ((chars, cfg hash), token hash) *)
+let spell_tbl : (string, int) Hashtbl.t = Hashtbl.create 256           (* word -> payload; per linter (dictionary, dialect) *)
 exception Unknown_triple
+let str_text (t : n list) = String.concat " " (List.map (fun c -> string_of_int (int_of_n c)) t)
+let str_toks (ts : n tok list) =
+  String.concat " " (List.map (fun (k, sp) -> Printf.sprintf "%d %d %d" (int_of_nat sp.sstart) (int_of_nat sp.send) (int_of_n k)) ts)
+let triple_key chars rt c = str_text chars ^ "|" ^ str_toks rt ^ "|" ^ string_of_int c
 let suggest w =
-  match Hashtbl.find_opt spell_tbl (List.map int_of_n w) with
+  match Hashtbl.find_opt spell_tbl (str_text w) with
   | Some p -> [[n_of_int p]]
   | None -> raise Unknown_triple
 let pattern_rel chars t c =
-  match Hashtbl.find_opt table (List.map int_of_n chars, int_of_n t, int_of_n c) with
+  match Hashtbl.find_opt table (triple_key chars t (int_of_n c)) with
   | Some v -> v
+  | None -> raise Unknown_triple
+let tok_hash t =
+  match Hashtbl.find_opt thash (str_toks t) with
+  | Some h -> n_of_int h
   | None -> raise Unknown_triple
 let cfg_hash c = n_of_int (try Hashtbl.find hash_of_cfg (int_of_n c) with Not_found -> 0)
 let rec triples = function
   | a :: b :: c :: t -> { cl_span = { sstart = nat_of_int a; send = nat_of_int b }; cl_body = n_of_int c } :: triples t
   | _ -> []
+let rec tokens = function
+  | a :: b :: k :: t -> (n_of_int k, { sstart = nat_of_int a; send = nat_of_int b }) :: tokens t
+  | [] -> []
+  | _ -> failwith "bad tokens"
 let show_lints ls =
   String.concat " " (List.map (fun l -> Printf.sprintf "%d %d %d" (int_of_nat l.cl_span.sstart) (int_of_nat l.cl_span.send) (int_of_n l.cl_body)) ls)
 let st_code = ref (fresh (n_of_int 0))
-let st_fixed = ref (fresh (n_of_int 0))
-let keep_code ev k = not (List.exists (fun id -> match Hashtbl.find_opt keys id with Some (c, h, _) -> code_key_eqb k (c, h) | None -> false) ev)
-let keep_fixed ev k = not (List.exists (fun id -> match Hashtbl.find_opt keys id with Some (c, h, t) -> fixed_key_eqb k ((c, h), t) | None -> false) ev)
+let keep_code ev k = not (List.exists (fun id -> match Hashtbl.find_opt keys id with Some key -> code_key_eqb k key | None -> false) ev)
 let () =
   iter_lines (fun l ->
     if String.length l = 0 then print_newline () else
     match l.[0] with
-    | 'N' -> st_code := fresh (n_of_int 0); st_fixed := fresh (n_of_int 0); Hashtbl.reset spell_tbl; print_endline "ok"
+    | 'N' -> st_code := fresh (n_of_int 0); Hashtbl.reset spell_tbl; print_endline "ok"
     | 'C' ->
         (match ints_of_line (String.sub l 1 (String.length l - 1)) with
          | [c; h] ->
              Hashtbl.replace hash_of_cfg c h;
-             st_code := run_set_cfg !st_code (n_of_int c); st_fixed := run_set_cfg !st_fixed (n_of_int c);
+             st_code := run_set_cfg !st_code (n_of_int c);
              print_endline "ok"
          | _ -> print_endline "?")
     | 'E' ->
         let ev = ints_of_line (String.sub l 1 (String.length l - 1)) in
         st_code := run_evict !st_code (keep_code ev) (fun _ -> true);
-        st_fixed := run_evict !st_fixed (keep_fixed ev) (fun _ -> true);
         print_endline "ok"
     | 'L' ->
         (match String.split_on_char '|' l with
@@ -66,49 +78,45 @@ let () =
                  | [a; b; p] ->
                      let a = int_of_string a and b = int_of_string b in
                      let chars = slice a b in
-                     if p <> "?" then Hashtbl.replace spell_tbl (List.map int_of_n chars) (int_of_string p);
+                     if p <> "?" then Hashtbl.replace spell_tbl (str_text chars) (int_of_string p);
                      Some ({ sstart = nat_of_int a; send = nat_of_int b }, chars)
                  | _ -> None) (String.split_on_char ';' words) in
              let cfg = int_of_n (!st_code).st_cfg in
              let h = cfg_hash (n_of_int cfg) in
-             let parsed = List.filter_map (fun c ->
-                 let c = String.trim c in
-                 if c = "" then None else if c = "-" then Some (None, 0, []) else
-                 match String.split_on_char ':' c with
-                 | [hd; known; ev] ->
-                     (match ints_of_line hd with
-                      | [hs; he; tok; kid] -> Some (Some ({ sstart = nat_of_int hs; send = nat_of_int he }, known), tok, kid :: ints_of_line ev)
-                      | _ -> failwith "bad chunk head")
-                 | _ -> failwith "bad chunk") (String.split_on_char ';' chunks) in
              (try
-               let chs = List.map (fun (hull, tok, kid_ev) ->
-                   match hull with
-                   | None -> (None, [])
-                   | Some (sp, known) ->
-                       (match chunk_of src (Some sp) (n_of_int tok) with
-                        | Ok (Some ch) ->
-                            let kid = List.hd kid_ev in
-                            Hashtbl.replace keys kid (ch.c_chars, h, n_of_int tok);
-                            if String.trim known <> "?" then
-                              Hashtbl.replace table (List.map int_of_n ch.c_chars, tok, cfg) (triples (ints_of_line known));
-                            (Some ch, List.tl kid_ev)
-                        | _ -> failwith "P")) parsed in
-               let d = { d_chunks = List.map fst chs; d_miss = miss; d_rest = N0 } in
-               let finish out (hits, whits) =
-                 print_endline (show_lints out ^ "|" ^ String.concat "" (List.map (fun b -> if b then "H" else "M") hits)
-                                ^ "|" ^ String.concat "" (List.map (fun b -> if b then "h" else "m") whits)) in
-               if fixed then begin
-                 let evs = List.map (fun (_, ev) -> keep_fixed ev) chs in
-                 match run_lint_fixed cfg_hash pattern_rel (triples (ints_of_line pre)) (triples (ints_of_line post)) spell_on suggest !st_fixed d evs [] with
-                 | Ok ((st, out), hits) -> st_fixed := st; finish out hits
-                 | Panic _ -> print_endline "P"
-               end else begin
-                 let evs = List.map (fun (_, ev) -> keep_code ev) chs in
-                 match run_lint_code cfg_hash pattern_rel (triples (ints_of_line pre)) (triples (ints_of_line post)) spell_on suggest !st_code d evs [] with
-                 | Ok ((st, out), hits) -> st_code := st; finish out hits
-                 | Panic _ -> print_endline "P"
-               end
+               (* (tokens, keyid, thid, known, evicted-before) per token slice of iter_chunks() *)
+               let parsed = List.filter_map (fun c ->
+                   let c = String.trim c in
+                   if c = "" then None else if c = "-" then Some ([], 0, 0, "?", []) else
+                   match String.split_on_char ':' c with
+                   | [hd; known; ev; toks] ->
+                       (match ints_of_line hd with
+                        | [kid; thid] -> Some (tokens (ints_of_line toks), kid, thid, String.trim known, ints_of_line ev)
+                        | _ -> failwith "bad chunk head")
+                   | _ -> failwith "bad chunk") (String.split_on_char ';' chunks) in
+               match drv_doc_of src (List.map (fun (ts, _, _, _, _) -> ts) parsed) miss with
+               | Panic _ -> print_endline "P"
+               | Ok d ->
+                   (* register, per chunk with a span: token hash identity, key identity, the observed uncached result *)
+                   let evs = List.map2 (fun oc (_, kid, thid, known, ev) ->
+                       (match oc with
+                        | None -> ()
+                        | Some ch ->
+                            (match rel_toks ch.c_start ch.c_toks with
+                             | Ok rt ->
+                                 Hashtbl.replace thash (str_toks rt) thid;
+                                 Hashtbl.replace keys kid ((ch.c_chars, h), n_of_int thid);
+                                 if known <> "?" then Hashtbl.replace table (triple_key ch.c_chars rt cfg) (triples (ints_of_line known))
+                             | Panic _ -> ()));
+                       keep_code ev) d.d_chunks parsed in
+                   (match run_lint_code cfg_hash tok_hash pattern_rel (triples (ints_of_line pre)) (triples (ints_of_line post)) spell_on suggest !st_code d evs [] with
+                    | Ok ((st, out), (hits, whits)) ->
+                        st_code := st;
+                        print_endline (show_lints out ^ "|" ^ String.concat "" (List.map (fun b -> if b then "H" else "M") hits)
+                                       ^ "|" ^ String.concat "" (List.map (fun b -> if b then "h" else "m") whits))
+                    | Panic _ -> print_endline "P")
              with Unknown_triple -> print_endline "UNKNOWN (the model misses where the implementation never computed an uncached result)"
-                | Failure m -> print_endline m)
+                | Failure m -> print_endline m
+                | Invalid_argument m -> print_endline m)
          | _ -> print_endline "?")
     | _ -> print_endline "?")
